@@ -176,6 +176,10 @@ pub struct Flow {
     pub ended: bool,
     pub proto_events: Vec<(u64, ProtoSnap, MState)>,
     pub sched_events: Vec<(u64, SchedSnap)>,
+    /// (seq of the restart, committed storage that survived)
+    pub restarts: Vec<(u64, BTreeMap<String, Val>)>,
+    /// every (counter, last contact) pair the model held at some completed step
+    pub model_pairs: Vec<(u64, Option<i64>)>,
 }
 
 pub fn retry_after(headers: &[(String, Vec<u8>)]) -> RetryAfter {
@@ -306,8 +310,17 @@ fn ev(t: u64, r: u64, e: Option<i64>) -> EventExp {
 }
 
 pub fn analyze(log: &[Rec], setup: &Setup, preload: &BTreeMap<String, Val>) -> Flow {
+    analyze_multi(log, std::slice::from_ref(setup), preload)
+}
+
+/// `setups[i]` is the embedder configuration of the i-th incarnation (after the i-th restart);
+/// the last one repeats.
+pub fn analyze_multi(log: &[Rec], setups: &[Setup], preload: &BTreeMap<String, Val>) -> Flow {
     let mut f = Flow::default();
+    let mut incarnation = 0usize;
+    let mut setup = &setups[0];
     let mut st = initial_state(setup, preload);
+    f.model_pairs.push((st.failed, st.last_contact_us));
     let mut cur: Option<CheckView> = None;
     let mut last_allowed: Option<(u64, Decision, bool)> = None;
     let mut cur_wait: Option<RebootWait> = None;
@@ -328,7 +341,11 @@ pub fn analyze(log: &[Rec], setup: &Setup, preload: &BTreeMap<String, Val>) -> F
                 if let Some(wv) = cur_wait.take() {
                     f.waits.push(wv);
                 }
+                incarnation += 1;
+                setup = &setups[incarnation.min(setups.len() - 1)];
+                f.restarts.push((r.seq, committed.clone()));
                 st = initial_state(setup, &committed);
+                f.model_pairs.push((st.failed, st.last_contact_us));
                 last_allowed = None;
             }
             Ev::Commit { ok, snapshot } => {
@@ -435,6 +452,7 @@ pub fn analyze(log: &[Rec], setup: &Setup, preload: &BTreeMap<String, Val>) -> F
                     let mut c = cur.take().unwrap();
                     finish_check(&mut c, &mut st, setup);
                     f.checks.push(c);
+                    f.model_pairs.push((st.failed, st.last_contact_us));
                 }
             }
             Ev::StreamEnd => f.ended = true,
@@ -491,6 +509,7 @@ pub fn analyze(log: &[Rec], setup: &Setup, preload: &BTreeMap<String, Val>) -> F
                         st.failed += 1;
                     }
                     p.after = st.clone();
+                    f.model_pairs.push((st.failed, st.last_contact_us));
                 }
             }
             Ev::TimerArm { id, spec } => {
